@@ -131,6 +131,11 @@ STAGES = {
                                           AUTHTYPES='{"NOAUTH", "PLAIN-NOENC", "LOGIN-NOENC", "CRAM-MD5", "SCRAM-SHA-256", "XOAUTH2"}',
                                           AUTHLISTS='{{"PLAIN", "LOGIN", "CRAM-MD5", "SCRAM-SHA-256", "XOAUTH2"}}')),
             ('send-stall', 'Session', cfg(BUDGET='1', CAPSETS='{{}}', CLASSES='{"stall", "cstall"}', NONOOP='BOOLEAN')),
+            # implicit TLS over real TCP: the server accepts the connection and never answers the ClientHello, or goes silent later
+            ('implicit-tls-stall', 'Session', cfg(OP='"Dial"', N='1', MAXR='1', BUDGET='1', CAPSETS='{{}}', CLASSES='{"stall"}', POLICIES='{"implicit"}',
+                                                  HANDSHAKES='{"ok", "stall"}', FALLBACK='BOOLEAN', AUTHTYPES='{"NOAUTH", "PLAIN"}', AUTHLISTS='{{"PLAIN", "LOGIN"}}')),
+            ('implicit-tls-stall-dialandsend', 'Session', cfg(OP='"DialAndSend"', N='1', MAXR='1', BUDGET='1', CAPSETS='{{}}', CLASSES='{"stall"}', POLICIES='{"implicit"}',
+                                                              HANDSHAKES='{"ok", "stall"}')),
             ('dial-fallback-stall', 'Session', cfg(OP='"Dial"', N='1', MAXR='1', BUDGET='2', CAPSETS='{{}}', CLASSES='{"stall", "refuse"}',
                                                    FALLBACK='BOOLEAN', POLICIES='{"opportunistic", "none"}', STARTTLSADV='{FALSE}')),
             ('dialandsend-stall', 'Session', cfg(OP='"DialAndSend"', N='1', BUDGET='1', CAPSETS='{{}}', CLASSES='{"stall"}')),
